@@ -274,9 +274,10 @@ class SeedScanStep(_SeedStep):
     """scan: one sub-key for the scan; iteration t runs a nested interpreter on fold_in(sub_key, t);
     the carried key is unchanged; consts/carry/xs plumbing; sites in the body are removed"""
 
-    cases = ["forward"]
+    cases = ["forward", "reverse"]
 
     def call(self, case):
+        self.rev = case == "reverse"
         self.taint = install_taint()
         self.k0 = J.key_const("k0")
         self.s = Site(name="site")
@@ -290,7 +291,7 @@ class SeedScanStep(_SeedStep):
         fc, ys = J.Var("fc"), J.Var("ys")
         self.vk, self.vc0 = value("const"), value("carry0")
         self.vxs = Tensor.fresh("xs", (self.T,), V)
-        params = {"jaxpr": body, "length": Sym(self.T), "reverse": False, "unroll": 1, "num_consts": 1, "num_carry": 1, "linear": None}
+        params = {"jaxpr": body, "length": Sym(self.T), "reverse": self.rev, "unroll": 1, "num_consts": 1, "num_carry": 1, "linear": None}
         jp = J.Jaxpr([], [k, c0, xs], [J.Eqn(J.scan_p, [k, c0, xs], [fc, ys], params)], [fc, ys])
         self.it = interp(self.k0)
         return self.real(self.it.eval_jaxpr_seed, jp, [], [self.vk, self.vc0, self.vxs])
@@ -306,6 +307,8 @@ class SeedScanStep(_SeedStep):
             return
         rec = scans[0]
         t = rec["t"]
+        yield "scan_direction_preserved", bool(rec["reverse"]) == self.rev
+        pos = (self.T - 1 - t) if self.rev else t  # the element of xs the original program reads in iteration t
         sub = Key.R(k0)
         yield "interpreter_key_advanced", same(self.it.key, Sym(Key.L(k0)))
         yield "keyed_sampler_called_once_per_generic_iteration", len(self.s.calls) == 1 and not self.s.binds
@@ -316,13 +319,14 @@ class SeedScanStep(_SeedStep):
         # scan induction on the carried key: Inv(t): carried key = sub_key.  Base and step are the two
         # obligations below; the claims about iteration t are proved under Inv(t).
         inv_t = same(carry_t[0], Sym(sub))
-        yield "iteration_key_is_fold_in(sub_key, t)_then_split", z3.Implies(inv_t, same(key, Sym(Key.R(Key.F(sub, t)))))
+        yield "iteration_key_is_fold_in(sub_key, t)_then_split", z3.Implies(inv_t, same(key, Sym(Key.R(Key.F(sub, pos)))))
         # carry = (key, [carry_vals]); the carried key never changes
         new = rec["new_carry"]
         yield "carried_key_unchanged", same(new[0], carry_t[0])
         yield "carried_key_initialised_with_sub_key", same(rec["init"][0], Sym(sub))
-        yield "body_operands_are_consts_carry_x", len(args) == 3 and args[0] is self.vk and same(args[1], carry_t[1][0]) and same(args[2], Sym(self.vxs.fn((t,))))
-        draw = DrawK(z3.IntVal(self.s.id * 10), Key.R(Key.F(sub, t)), enc(tuple(args)))
+        yield "body_operands_are_consts_carry_x", len(args) == 3 and args[0] is self.vk and same(args[1], carry_t[1][0]) and same(args[2], Sym(self.vxs.fn((pos,))))
+        # (a reversed scan folds in the position of the element it reads: still one distinct index per iteration)
+        draw = DrawK(z3.IntVal(self.s.id * 10), Key.R(Key.F(sub, pos)), enc(tuple(args)))
         yield "new_carry_is_body_carry_output", z3.Implies(inv_t, same(new[1][0], Sym(draw)))
         yield "scan_primitive_itself_not_rebound", len(J.scan_p.binds) == 0
         yield "no_hidden_randomness", self.taint.touched == 0 and not outputs_tainted([o for o in path.value if isinstance(o, Sym)])
